@@ -145,7 +145,7 @@ const ODD_ATTR_NAMES: &[&str] = &["a\"b", "a'b", "a<b", "=x", "é", "x:y", "a_b"
 const ODD_UNQUOTED: &[&str] = &["c/", "a=b", "a'b", "a\"b", "a<b", "`", "é", "/", "x/y", "&amp;", "a&b"];
 const ODD_QUOTED: &[&str] = &["a>b", " a ", "/>", "a=b", "x\ny", "<b>", "&quot;", "a\tb", "é😀"];
 
-const WORDS: &[&str] = &["hello", "a", " ", "x y", "foo bar", "1 2", "\n", "a&b", "& ", "it's", "q\"q", "]]", "--", "=", "/", "?", "!"];
+const WORDS: &[&str] = &["hello", "a", " ", "x y", "\u{feff}", "\u{feff}\u{e9}", "foo bar", "1 2", "\n", "a&b", "& ", "it's", "q\"q", "]]", "--", "=", "/", "?", "!"];
 const MB_WORDS: &[&str] = &["é", "日本", "😀", "\u{a0}", "ü"];
 
 pub struct Gen<'a, 't> {
